@@ -129,6 +129,19 @@ Theorem C07_vhdx_parent_choice :
 Proof. intros P fs. exact (vhdx_parent_choice fs). Qed.
 Print Assumptions C07_vhdx_parent_choice.
 
+Theorem C07_vmdk_parent_first_existing :
+  forall (P : Type) (fs : P -> bool) same up r,
+  vmdk_open_parent fs true same up = Ok (Some r) ->
+  fs r = true /\ (r = same \/ (fs same = false /\ r = up)).
+Proof. intros P fs. exact (vmdk_parent_first_existing fs). Qed.
+Print Assumptions C07_vmdk_parent_first_existing.
+
+Theorem C07_vmdk_parent_required :
+  forall (P : Type) (fs : P -> bool) same up,
+  fs same = false -> fs up = false -> vmdk_open_parent fs true same up = Err.
+Proof. intros P fs. exact (vmdk_parent_required fs). Qed.
+Print Assumptions C07_vmdk_parent_required.
+
 Theorem C07_hdd_image_required :
   forall (P : Type) (fs : P -> bool) ia p c1 c2 c3 rel,
   fs p = false -> fs c1 = false -> fs c2 = false -> fs c3 = false -> fs rel = false ->
